@@ -2,6 +2,7 @@
 C22 — Display limits return the top of the ranked result.  Property theorems; lemmas live in C22/Lemmas.lean.
 -/
 import ZoektModel.C22.LemmasAgg
+import ZoektModel.C22.LemmasChunk
 namespace ZoektModel.C22
 open ZoektModel
 
@@ -36,6 +37,40 @@ theorem truncator_prefix_line (D M : Nat) (ctx : Nat) (batches : List (List File
     checkDisplay D M false ctx batches.flatten
       ((truncRun (newTruncator D M false) batches).map (·.1)).flatten = true :=
   truncator_prefix D M false ctx batches (fun f hf u hu => cutOK_line ctx u (hb f hf u hu))
+
+/-- **`chunk_cut_whole_lines`**: a chunk (ranges in increasing order, `Content` = the whole lines from its first line
+    through last end line + context, i.e. trailing context not clipped by the end of the file) that the match limit
+    shortens to `0 < k < len` ranges still consists of whole lines covering exactly its remaining ranges plus the
+    requested context (up to the terminator of the last line when `Content` had none), with `Ranges`/`SymbolInfo` cut
+    in parallel; `log.Panicf("Failed to find enough newlines …")` is not reached (`bad = false`). -/
+theorem chunk_cut_whole_lines (ctx : Nat) (u : MUnit) (h : WFChunk ctx u) (k : Nat) (hk : 0 < k)
+    (hlt : k < u.items.length) : unitCutOf true ctx u (cutUnit true k u) = true ∧ (cutUnit true k u).bad = false := by
+  have h1 := cutOK_chunk ctx u h k hk hlt
+  refine ⟨h1, ?_⟩
+  unfold unitCutOf at h1
+  rw [Bool.or_eq_true] at h1
+  rcases h1 with h1 | h1
+  · have : cutUnit true k u = u := by simpa using h1
+    rw [this]; exact h.nobad
+  · simp only [Bool.and_eq_true, Bool.not_eq_true'] at h1
+    exact h1.1.1.1.1.1.2
+
+/-- chunk mode: `truncator_prefix` for well-formed chunks -/
+theorem truncator_prefix_chunk (D M : Nat) (ctx : Nat) (batches : List (List File))
+    (hwf : ∀ f ∈ batches.flatten, ∀ u ∈ f.units, WFChunk ctx u) :
+    checkDisplay D M true ctx batches.flatten
+      ((truncRun (newTruncator D M true) batches).map (·.1)).flatten = true :=
+  truncator_prefix D M true ctx batches (fun f hf u hu => cutOK_chunk ctx u (hwf f hf u hu))
+
+/-- a chunk at the end of the file "l1 foo\nl2\nl3 foo\nl4" (context 2, ranges ending on lines 1 and 3): its trailing
+    context is clipped by the end of the file -/
+def exClipped : MUnit :=
+  ⟨0, [⟨0, 1⟩, ⟨1, 3⟩], [108, 49, 32, 102, 111, 111, 10, 108, 50, 10, 108, 51, 32, 102, 111, 111, 10, 108, 52], 1, none, false⟩
+
+/-- **`chunk_cut_whole_lines` is false for a chunk whose trailing context was clipped by the end of the file**
+    (the known finding): cut to one range, the content is "l1 foo\nl2" although two context lines are available -/
+theorem chunk_cut_clipped_full_false : unitCutOf true 2 exClipped (cutUnit true 1 exClipped) = false := by
+  decide
 
 /-- once `hasMore` is false the truncator returns nothing more -/
 theorem truncator_quiet_after_done (st : TState) (fm : List File) (hd : st.done = true)
@@ -128,5 +163,29 @@ theorem aggregate_prefix_full_false :
   have := h 3 0 [[exA, exB, exD, exX], [exP]]
   revert this
   decide
+
+/-! ### non-vacuity -/
+
+/-- "l1 foo\nl2\nl3 foo\nl4\n", context 1, ranges ending on lines 1 and 3 -/
+def exWF : MUnit :=
+  ⟨0, [⟨0, 1⟩, ⟨1, 3⟩], [108, 49, 32, 102, 111, 111, 10, 108, 50, 10, 108, 51, 32, 102, 111, 111, 10, 108, 52, 10], 1,
+   some [7, 8], false⟩
+
+example : WFChunk 1 exWF :=
+  ⟨rfl, by unfold Mono exWF; decide, by unfold exWF; decide, by unfold exWF; decide, by decide⟩
+-- cut to one range: "l1 foo\nl2\n" (the unfixed code returned "l1 foo\nl2\nl3 foo")
+example : (cutUnit true 1 exWF).content = [108, 49, 32, 102, 111, 111, 10, 108, 50, 10] ∧
+    (cutUnit true 1 exWF).sym = some [7] := by decide
+
+def exLine (id n : Nat) : MUnit := ⟨id, (List.range n).map fun i => ⟨100 * id + i, 0⟩, [], 0, none, false⟩
+def exF1 : File := ⟨1, 50, 1, [exLine 1 2, exLine 2 1]⟩
+def exF2 : File := ⟨2, 40, 1, [exLine 3 3]⟩
+def exF3 : File := ⟨3, 30, 1, [exLine 4 1]⟩
+-- match limit 4 over two batches: file 1 whole (3 matches), file 2 cut to 1 match, then nothing; hasMore turns false
+example : (truncRun (newTruncator 0 4 false) [[exF1], [exF2, exF3], [exF3]]).map (fun p => (p.1.map fileCount, p.2)) =
+    [([3], true), ([1], false), ([], false)] := by decide
+-- same extension, distinct scores, arriving in two batches in the "wrong" order, file limit 2
+example : collect 2 0 false [[exF3, exF2], [exF1]] = some [exF1, exF2] := by decide
+example : (scores [exF3, exF2, exF1]).Nodup := by decide
 
 end ZoektModel.C22
